@@ -103,7 +103,9 @@ def prepare(root, rng, prior, case):
         pass
     elif prior == 'siblings-share-file':
         # two Manifests of one directory (both referenced from the top) list the same, since edited, file with different hash sets
-        d = [x for x in case['dirs'][1:] if x not in case['mdirs'] and not C.path_covered(case['ignores'], x)]
+        # (only directories governed by the top-level Manifest: the lines replaced below are the top-level ones; with another
+        # governing Manifest the old, possibly differently typed, entry would stay and gemato rightly refuses the conflict)
+        d = [x for x in case['dirs'][1:] if not C.path_covered(case['mdirs'], x) and not C.path_covered(case['ignores'], x)]
         fl = [f for f in sorted(listed) if d and os.path.dirname(f) == d[0]]
         if d and fl:
             sub = d[0]
@@ -178,8 +180,12 @@ def one_case(rng, tier):
         # sorting is only available through the library / profile: use the library when asked
         st = run_update(root, hashes, sort)
         desc['status'] = st
+        if isinstance(st, str) and st.startswith('GematoException:'):
+            # a refusal with a gemato error is a legal outcome (C03 speaks of updates that complete; C18 allows exit status 1)
+            desc['refused'] = st
+            return out, desc
         if st != 0:
-            out.append(dict(desc, what='C18/C03 update failed: %r' % (st,), key='update-status:' + str(st)[:60], props=['C18', 'C03']))
+            out.append(dict(desc, what='C18 update died: %r' % (st,), key='update-status:' + str(st)[:60], props=['C18']))
             return out, desc
         probs = C.describes_exactly(root, hashes)
         if probs:
@@ -539,6 +545,7 @@ def main():
     viol, samples, distinct = [], [], set()
     t0 = time.time()
     evals = 0
+    refused = 0
     if prop in ('C03', 'C10', 'C12', 'C18'):
         for i in range(n):
             try:
@@ -546,6 +553,7 @@ def main():
             except BaseException as e:
                 v, desc = [{'what': 'harness error %s: %s' % (type(e).__name__, e), 'key': 'harness', 'props': [prop]}], {}
             evals += 5
+            refused += 1 if desc.get('refused') else 0
             distinct.add(json.dumps([desc.get('prior'), desc.get('edits'), sorted((desc.get('case') or {}).get('files', {})),
                                      (desc.get('case') or {}).get('mdirs')], sort_keys=True, default=str))
             if len(samples) < 2:
@@ -575,6 +583,9 @@ def main():
                 viol.append({'what': 'harness error %s: %s' % (type(e).__name__, e), 'key': 'harness', 'props': [prop]})
             evals += 3
             distinct.add('wm%d' % i)
+    if refused * 10 > n:
+        viol.append({'what': 'harness error: %d of %d generated updates were refused; the harness explores too little' % (refused, n),
+                     'key': 'harness', 'props': [prop]})
     # one violation per key is enough to report
     seen, uniq = set(), []
     for v in viol:
@@ -586,7 +597,8 @@ def main():
             'rule': 'generated trees x prior Manifest states %s x 0..2 edits x hash sets x sort; update+save through the library, '
                     'then independent describes_exactly oracle, fresh verify, untouched non-Manifest files, preserved DIST/IGNORE/TIMESTAMP, '
                     'second-run idempotence; canonical-bytes under shuffled scandir and permuted prior entries; watermark cases at size-1/size/size+1' % PRIOR,
-            'samples': samples, 'violations': uniq, 'all_violation_count': len(viol), 'wall_s': time.time() - t0})
+            'samples': samples, 'violations': uniq, 'all_violation_count': len(viol), 'refused_updates': refused,
+            'wall_s': time.time() - t0})
 
 
 if __name__ == '__main__':
